@@ -137,9 +137,9 @@ RefRun(prog) == LET st == RFold(prog, 1, St0) IN
 (*              .if/.else/.endif swallows the .else of the enclosing block *)
 (*              and unterminated or stray directives go unnoticed.         *)
 
-CONSTANT CountsIfndef        \* the shipped value of cfg.ifndef
+CONSTANTS CountsIfndef, CountsCloses   \* the shipped values of the switches
 
-Shipped  == [ifndef |-> CountsIfndef, closes |-> FALSE]
+Shipped  == [ifndef |-> CountsIfndef, closes |-> CountsCloses]
 Repaired == [ifndef |-> TRUE, closes |-> TRUE]
 
 MDev(st, d) == [st EXCEPT !.dev = @ \cup {d}]
@@ -175,19 +175,13 @@ MAsm(prog, st, cfg) ==
        (IF st.cnt < 1 THEN MErr(st) ELSE [ret |-> 2, st |-> nx])
     ELSE \* an opener: parse_if / parse_ifdef
        LET tr == Truth(s, Env(st)) IN
-       IF tr = "bad" THEN
-          IF cfg.closes THEN MErr(st)
-          ELSE \* parse_if returns -1 with ifdef_count left incremented; parse_directives
-               \* discards the result and assembly goes on with the next statement
-               MAsm(prog, MDev([nx EXCEPT !.cnt = @ + 1], "IfErrorIgnored"), cfg)
+       IF tr = "bad" THEN MErr(st)      \* parse_if / parse_ifdef fail and the failure is propagated
        ELSE IF tr = "f" THEN
           \* parse_ifdef_ignore(1): if (ifdef_ignore() == 2) assemble();
           LET g == MIgn(prog, st.i + 1, 0, cfg) IN
           IF g.ret = 2 THEN AfterSkipped(prog, MAsm(prog, [st EXCEPT !.i = g.i, !.cnt = @ + 1], cfg), cfg)
           ELSE IF g.ret = 0 THEN MAsm(prog, [st EXCEPT !.i = g.i], cfg)
-          ELSE IF cfg.closes THEN MErr(st)
-          ELSE \* "Missing endif" is printed, the result is discarded
-               MAsm(prog, MDev([st EXCEPT !.i = g.i], "MissingEndifIgnored"), cfg)
+          ELSE MErr(st)                 \* "Missing endif"
        ELSE
           \* parse_ifdef_ignore(0): if (assemble() == 2) ifdef_ignore();
           AfterTaken(prog, MAsm(prog, [nx EXCEPT !.cnt = @ + 1], cfg), cfg)
@@ -198,8 +192,8 @@ AfterTaken(prog, a, cfg) ==
      LET g  == MIgn(prog, a.st.i, 0, cfg)
          s1 == [a.st EXCEPT !.i = g.i, !.cnt = @ - 1] IN
      IF g.ret = 0 THEN MAsm(prog, s1, cfg)
-     ELSE IF cfg.closes THEN MErr(a.st)          \* second .else, or no .endif
-     ELSE IF g.ret = -1 THEN MAsm(prog, MDev(s1, "MissingEndifIgnored"), cfg)
+     ELSE IF g.ret = -1 THEN MErr(a.st)          \* no .endif: "Missing endif"
+     ELSE IF cfg.closes THEN MErr(a.st)          \* second .else
      ELSE MAsm(prog, s1, cfg)                    \* a second .else is swallowed
   ELSE IF a.ret = 4 THEN MAsm(prog, [a.st EXCEPT !.cnt = @ - 1], cfg)
   ELSE IF a.ret = 0 THEN
